@@ -918,6 +918,42 @@ func streamRb(o opts) {
 			m.nontrivial(fmt.Sprintf("ops%d", nops))
 		}
 	}
+	// single consumer: while another goroutine holds the drain token (as the write worker does during its pre-batch
+	// replay), a reader that hits back-pressure must NOT replay the stripe itself
+	for rep := 0; rep < 3; rep++ {
+		c, err := kioshun.New[int, int](kioshun.Config{MaxSize: 64, ShardCount: 1, EvictionPolicy: kioshun.SieveTinyLFU})
+		must(err)
+		for k := 0; k < 48; k++ {
+			c.Set(k, k, kioshun.NoExpiration) // past warm-up: reads are sampled
+		}
+		c.Get(7)
+		c.VerifHoldDrain(0, true)
+		kioshun.VerifTakeTrace()
+		done := make(chan struct{})
+		go func() {
+			for i := 0; i < 3200; i++ {
+				c.Get(7)
+			}
+			close(done)
+		}()
+		select {
+		case <-done:
+		case <-time.After(10 * time.Second):
+			m.violate("C07", "rb: reads of a hot key did not return within 10 s while the drain token was held", "second consumer")
+		}
+		n := 0
+		for _, e := range kioshun.VerifTakeTrace() {
+			if e.Kind == kioshun.VerifEvSample {
+				n++
+			}
+		}
+		c.VerifHoldDrain(0, false)
+		if n > 0 {
+			m.violate("C11", fmt.Sprintf("rb: while the drain token was held by another goroutine, a reader replayed %d read samples into the frequency sketch (a second consumer of the stripe: unsynchronised access to the sketch and doorkeeper)", n), "second consumer")
+		}
+		c.Close()
+		m.count("second_consumer_checks")
+	}
 	// fewer stripes than stripe ids (a cache built while GOMAXPROCS is small, readers whose per-P id is larger):
 	// every sample must land in a valid stripe, mark that stripe dirty, and be replayed by the write path's own
 	// drainReadSamples (reached through a synchronous Set) without a panic.
